@@ -347,6 +347,44 @@ func TestC01(t *testing.T) {
 			if i == n {
 				break
 			}
+			// sometimes a client that already monitors something makes a Monitor call that fails
+			// (a method the client does not know, a request the server refuses): the monitors it
+			// has must go on being served
+			if rapid.IntRange(0, 3).Draw(t, "failedmonitor") == 0 {
+				ci := rapid.IntRange(0, len(mcs)-1).Draw(t, "failedmonitorclient")
+				mc := mcs[ci]
+				started := false
+				for _, ms := range mc.specs {
+					started = started || ms.started
+				}
+				if started {
+					tn := s.Tables[rapid.IntRange(0, len(s.Tables)-1).Draw(t, "failedmonitortable")].Name
+					mon := mc.c.NewMonitor(client.WithTable(w.NewModel(tn)))
+					// (a call given up by its context is not generated: the server may register the
+					// monitor all the same and then notifies a monitor the client does not know of)
+					how := rapid.SampledFrom([]string{"unsupported-method", "refused-by-server"}).Draw(t, "failedmonitorhow")
+					fctx := ctx
+					switch how {
+					case "unsupported-method":
+						mon.Method = "monitor_something_else"
+					case "refused-by-server":
+						// a condition the server cannot decode
+						mon.Method = ovsdb.ConditionalMonitorRPC
+						for i := range mon.Tables {
+							mon.Tables[i].Conditions = []ovsdb.Condition{{Column: "_uuid", Function: ovsdb.ConditionFunction("~="), Value: ovsdb.UUID{GoUUID: kit.MkUUID(1)}}}
+						}
+					}
+					if _, err := mc.c.Monitor(fctx, mon); err == nil {
+						// it was accepted after all: not a failed call, and this table may now be
+						// delivered twice to this client (outside the generated domain): stop here
+						kit.Label("C01", "failed-monitor:accepted(case ended)")
+						break
+					}
+					kase.History = append(kase.History, fmt.Sprintf("client %d: failed Monitor call (%s) on %s", ci, how, tn))
+					kase.Writers = append(kase.Writers, ci)
+					kit.Label("C01", "failed-monitor:"+how)
+				}
+			}
 			// the issuer: the writer or one of the monitoring clients
 			issuer := rapid.IntRange(-1, len(mcs)-1).Draw(t, "issuer")
 			c := writer
